@@ -503,9 +503,83 @@ def shards(tier, seed):
     return large + out          # the long-running ones first
 
 
+def check_raw_sources(ld, res):
+    """The same laws over sources that hand out their stored examples
+    themselves (the bare DictDataset / ListDataset of the docstrings,
+    from_file(..., immutable_warranty=None)), examples being lists: two
+    epochs of each side, index access twice, and the stored examples
+    afterwards.  A stage of the library works on what it was given; it does
+    not write into it."""
+    import copy
+    core = ld.core
+
+    def f(x):
+        return ('f', x)
+
+    def g(x):
+        return ('g', x)
+    raw = {
+        'DictDataset-of-lists': lambda: core.DictDataset({'a': [1, 2], 'b': [3, 4], 'c': [5]}),
+        'ListDataset-of-lists': lambda: core.ListDataset([[1, 2], [3, 4, 5], [6]]),
+        'ListDataset-of-tuples': lambda: core.ListDataset([(1, 2), (3,), (4, 5)]),
+        'list.batch(2)': lambda: ld.new([1, 2, 3, 4, 5]).batch(2),
+    }
+    pairs = {
+        'batch_map-unbatch=unbatch-map': (lambda d: d.batch_map(f).unbatch(),
+                                          lambda d: d.unbatch().map(f)),
+        'batch_map-batch_map=batch_map-of-composition': (
+            lambda d: d.batch_map(f).batch_map(g), lambda d: d.batch_map(lambda x: g(f(x)))),
+        'batch_map-id=id': (lambda d: d.batch_map(lambda x: x), lambda d: d),
+        'map-of-listcomp=batch_map': (lambda d: d.map(lambda b: [f(x) for x in b]),
+                                      lambda d: d.batch_map(f)),
+        'unbatch-batch1-unbatch=unbatch': (lambda d: d.unbatch().batch(1).unbatch(),
+                                           lambda d: d.unbatch()),
+    }
+    for rn, mk in raw.items():
+        for pn, (lhs, rhs) in pairs.items():
+            case = {'raw_source': rn, 'law': pn}
+            res.case(('raw', rn, pn), True)
+            try:
+                src_l, src_r = mk(), mk()
+                before = copy.deepcopy(list(src_l))
+                a, b = lhs(src_l), rhs(src_r)
+                obs = []
+                for d in (a, b):
+                    e1, e2 = list(d), list(d)
+                    idx = None
+                    try:
+                        idx = [d[0], d[0], d[-1]]
+                    except BaseException:
+                        pass
+                    obs.append((e1, e2, idx, list(d)))
+                after = (list(src_l), list(src_r))
+            except BaseException as e:
+                res.violation('law-violated', case, exc_sig(e),
+                              sig={'law': 'raw-source-laws', 'aspect': 'raised'})
+                continue
+            res.count('law_instances_compared')
+            res.count('raw_source_law_instances')
+            bad = None
+            norm = lambda o: [list(map(lambda x: list(x) if isinstance(x, (list, tuple)) else x, e))
+                              if isinstance(e, list) else e for e in o]
+            if norm(obs[0]) != norm(obs[1]):
+                bad = ('sides-differ', obs[0], obs[1])
+            elif obs[0][0] != obs[0][1] or obs[0][0] != obs[0][3]:
+                bad = ('epochs-differ', obs[0][0], obs[0][1])
+            elif [list(x) for x in after[0]] != [list(x) for x in before] or \
+                    [list(x) for x in after[1]] != [list(x) for x in before]:
+                bad = ('source-changed', before, after)
+            if bad:
+                res.violation('law-violated', case,
+                              {'aspect': bad[0], 'lhs': bad[1], 'rhs': bad[2]},
+                              sig={'law': 'raw-source-laws', 'aspect': bad[0]})
+
+
 def run_shard(spec, res):
     if spec['what'] == 'large':
         return run_large(spec, res)
+    if spec.get('name') == 'rand0':
+        check_raw_sources(import_lazy_dataset(), res)
     ld = import_lazy_dataset()
     L = laws(ld)
     names = sorted(L)
